@@ -83,6 +83,10 @@ def gen_cases(tier, seed):
         yield "reuse", {"pool_seed": rng.getrandbits(32), "nk": 3, "nm": 3}
     for i in range(4 if tier == "quick" else 20):
         yield "reuse_scripted", {"pool_seed": rng.getrandbits(32)}
+    # boundary draws of the random source across different keys/messages: a draw that must be rejected (0) may not be
+    # mapped onto another usable nonce, and distinct draw sequences may never yield the same r
+    for i in range(3 if tier == "quick" else 20):
+        yield "reuse_boundary_draws", {"pool_seed": rng.getrandbits(32)}
     # (d) small curves
     ps = [43, 67] if tier == "quick" else [43, 67, 79, 127]
     for p in ps:
@@ -343,6 +347,28 @@ def run_case(kind, params, ctx):
         if hist[0][2] == hist[1][2]:
             ctx.count("reuse.excused_same_draw")
         _check_reuse(ctx, hist)
+        ctx.nontrivial()
+        return
+    if kind == "reuse_boundary_draws":
+        rng = rng_for("C01-reuse-b", params["pool_seed"])
+        kk = rng.randrange(3, N - 3)
+        scripts = [[0, kk], [kk], [1], [0, 1], [2], [0, 2], [N - 1], [0, N - 1], [0, 0, kk + 1], [kk + 1]]
+        hist = []
+        for sc in scripts:
+            d = rng.randrange(1, N)
+            m = rand_bytes(rng, 16)
+            with RngShim(script=list(sc)) as sh:
+                r, s = em.sign(d, int.from_bytes(h256(m), "big"))
+            hist.append((d, m, r, tuple(v for _, v in sh.draws)))
+            if sc[0] == 0:
+                ctx.count("class.inner_retry_draw0")
+        # the oracle is the property's own clause: same r only if the consumed draw sequences coincide.  Sequences such as
+        # (0, k) and (k,) legitimately give the same r (the rejected 0 contributes nothing) - they are normalised by
+        # dropping rejected zero draws before comparison.
+        # k and n-k are the same nonce as far as r is concerned (x(kG) = x(-kG)); a source that returns both has, for
+        # this clause, repeated itself (probability 2^-255 for a real source) - draws are canonicalised to min(k, n-k).
+        norm = [(d, m, r, tuple(min(x, N - x) for x in dr if x != 0)) for d, m, r, dr in hist]
+        _check_reuse(ctx, norm)
         ctx.nontrivial()
         return
     if kind == "smallcurve":
